@@ -300,12 +300,15 @@ def titles_constants(chk, rng):
 def nesting(chk, tier):
     from excel2pycl.src.tokens.composite_base_token import CompositeBaseToken
     counter = {'n': 0}
-    orig = CompositeBaseToken._get.__func__
+    # the un-memoised parse step is `_get` (behind the memo of `get`); a tree without it is counted at `get` itself
+    hook = '_get' if hasattr(CompositeBaseToken, '_get') else 'get'
+    orig = getattr(CompositeBaseToken, hook).__func__
+    chk.count('nesting:hook:' + hook)
 
-    def counted(cls, expression, in_cell):
+    def counted(cls, *a, **k):
         counter['n'] += 1
-        return orig(cls, expression, in_cell)
-    CompositeBaseToken._get = classmethod(counted)
+        return orig(cls, *a, **k)
+    setattr(CompositeBaseToken, hook, classmethod(counted))
     try:
         g = gramgen.tables()
         nclasses = len(g['rules'])
@@ -341,7 +344,7 @@ def nesting(chk, tier):
                 if dt > 5:
                     chk.violation({'why': 'translation of a nested formula took more than 5 s', 'formula': f[:200], 'seconds': round(dt, 1), 'stream': 'time'})
     finally:
-        CompositeBaseToken._get = classmethod(orig)
+        setattr(CompositeBaseToken, hook, classmethod(orig))
 
 
 def chains(chk, tier):
